@@ -173,7 +173,21 @@ func Program(r R, g *model.GraphData, o ProgOpts) []*gripql.GraphStatement {
 }
 
 func indexFilter(r R, g *model.GraphData) *gripql.GraphStatement {
-	switch r.Intn(12) {
+	switch r.Intn(16) {
+	// a value named twice: a filter keeps a row once however often its id or
+	// label is listed
+	case 12:
+		ids := vids(g, r, 1)
+		return HasID(ids[0], ids[0])
+	case 13:
+		ids := vids(g, r, 2)
+		return Has(gripql.Within("_gid", ids[0], ids[len(ids)-1], ids[0]))
+	case 14:
+		l := pick(r, VLabels)
+		return HasLabel(l, l)
+	case 15:
+		l := pick(r, VLabels)
+		return Has(gripql.Within("_label", l, VLabels[0], l))
 	// filters on the id/label that no lookup can serve (negations, values of
 	// another kind): the rewrite must leave them in place
 	case 7:
